@@ -21,7 +21,7 @@ RULE = (
     "thunks on SHARED argument arrays (quick) and f;g;h;f over the non-plot thunks (thorough): second "
     "result of f == first, shared arguments and every function default / module constant unchanged. "
     "state = (thunk, form) or a call sequence; transition = one public call; non-trivial = sequence of "
-    "two different thunks sharing at least one argument array."
+    "two different thunks sharing at least one argument array. Order differential: all thunks once each in fresh processes in forward / reverse / interleaved order, results compared thunk by thunk."
 )
 ASSUMPTIONS = [
     "which argument forms an entry point accepts is pinned from the unchanged tree (table FORMS_ACCEPTED); an accepted form that starts raising is a violation",
@@ -423,7 +423,61 @@ def bounds(tier):
     return {"thunks": len(thunks()), "forms": ["list", "int", "f64", "f32"], "sequence_length": 3 if tier == "quick" else 4}
 
 
+def eval_all_in_order(order_names):
+    """Helper run in a FRESH interpreter: evaluate the given thunks once each, in the given order, on a
+    float64 pool; returns {name: canonical result}."""
+    import matplotlib.pyplot as plt
+
+    T = thunks()
+    out = {}
+    for name in order_names:
+        P = make_pool("f64")
+        with warnings.catch_warnings():
+            warnings.simplefilter("ignore")
+            with contextlib.redirect_stdout(io.StringIO()):
+                try:
+                    out[name] = canon(T[name]["fn"](P))
+                except Exception as e:  # noqa: BLE001
+                    out[name] = "EXC %s" % type(e).__name__
+        plt.close("all")
+    return out
+
+
+def order_differential(ctx):
+    """Every thunk evaluated once in a fresh process in alphabet order, once in another fresh process in
+    REVERSE order (and once in an interleaved order): a result that depends on which other calls came
+    before it in the process differs between the runs."""
+    import json
+    import subprocess
+
+    names = list(thunks())
+    orders = {"forward": names, "reverse": names[::-1], "interleaved": names[::2] + names[1::2][::-1]}
+    results = {}
+    for label, order in orders.items():
+        code = ("import sys, json; sys.path.insert(0, %r); from mc import env; from checks import c19; "
+                "print('RESULT' + json.dumps(c19.eval_all_in_order(json.loads(sys.argv[1]))))" % (__import__("mc.env").env.VERIF,))
+        p = subprocess.run([sys.executable, "-B", "-c", code, json.dumps(order)], capture_output=True, text=True, cwd=__import__("mc.env").env.VERIF)
+        ctx.trans(len(order))
+        line = [l for l in p.stdout.splitlines() if l.startswith("RESULT")]
+        if p.returncode != 0 or not line:
+            from mc.ctx import HarnessError
+
+            raise HarnessError("order-differential helper failed: %s" % p.stderr[-800:])
+        results[label] = json.loads(line[0][6:])
+    base = results["forward"]
+    for label in ("reverse", "interleaved"):
+        for name in names:
+            ctx.valid()
+            ctx.state(("order", label, name))
+            if json.dumps(results[label][name], sort_keys=True) != json.dumps(base[name], sort_keys=True):
+                ctx.violation("history-dependent", "%s gives another result when the other entry points are called in %s order before it (fresh processes)" % (name, label),
+                              observed=results[label][name], expected=base[name], extra={"thunk": name, "order": label})
+    ctx.nontriv("order_differential_over_%d_thunks" % len(names))
+    ctx.outcome(("order-differential", len(names)))
+
+
 def cases(tier):
+    yield {"kind": "order-differential"}
     T = thunks()
     names = list(T)
     for n in names:
@@ -459,7 +513,9 @@ def run_case(case, ctx):
     import matplotlib.pyplot as plt
 
     try:
-        if case["kind"] == "A":
+        if case["kind"] == "order-differential":
+            order_differential(ctx)
+        elif case["kind"] == "A":
             check_A(case, ctx)
         elif case["kind"] == "B-row":
             check_B(case, ctx)
